@@ -23,6 +23,8 @@ PackageOK(r) ==
   /\ (r.kind = "odt" => {"content.xml", "styles.xml", "meta.xml", "settings.xml"} \subseteq {r.manifest[i] : i \in 1 .. Len(r.manifest)})
   \* every asset the main document references is in the package (when the asset files can be read: directory given, file exists)
   /\ (r.readable => \A i \in 1 .. Len(r.assetrefs) : (AssetDir(r.kind) \o r.assetrefs[i]) \in Names(r))
+  \* ... and none is still referred to by the name it had outside the package
+  /\ (r.readable /\ r.kind \in {"epub", "odt", "bundlezip"} => r.rawrefs = <<>>)
   \* and every asset member is one the main document references
   /\ (r.kind \in {"epub", "odt"} => \A n \in Names(r) : (Len(n) > Len(AssetDir(r.kind)) /\ SubSeq(n, 1, Len(AssetDir(r.kind))) = AssetDir(r.kind))
                                           => \E i \in 1 .. Len(r.assetrefs) : n = AssetDir(r.kind) \o r.assetrefs[i])
